@@ -724,6 +724,10 @@ func (d *urlValuesDecoder) DecodeObject(param string, sm *openapi3.Serialization
 		}
 	}
 
+	if !found && len(val) == 0 {
+		// none of the query keys belongs to this object: the parameter is absent, not an empty object
+		return nil, false, nil
+	}
 	return val, found, nil
 }
 
